@@ -24,3 +24,11 @@ package badger
 //@   ensures err == nil ==> old(d.meta.value.LastFinalizedVersion) != nil && version < old(*d.meta.value.LastFinalizedVersion) && version == old(d.meta.value.EarliestVersion)
 //@   precall badger/v4\.WriteBatch\)\.Delete$ :: exists && version < lastFinalizedVersion
 //@   note data is removed only for a version that is finalized, is the earliest retained one and is not the last finalized one, and never on a read-only database or while a multipart restore is in progress: every other finalized version is left alone by Prune
+
+// ---- Finalize (C06): nodes inserted by a finalized root are never classified as garbage ----
+
+//@ func badgerNodeDB.Finalize
+//@   props C06
+//@   requires d != nil
+//@   loop 7 invariant forall j int :: 0 <= j && j < idx() ==> updatedNodes[j].Removed || (inDom(notLoneNodes, updatedNodes[j].Hash) && notLoneNodes[updatedNodes[j].Hash])
+//@   note within the update list of one finalized root, every node the root inserted is marked "not lone" when the list has been processed, also when the same hash occurs earlier or later in the list as a removal (a removed and re-created node). NOT covered: that the mark survives the processing of the other roots of the version, and everything about what the lists contain
